@@ -55,3 +55,43 @@ Theorem C17_locations_follow_bytes :
   forall (all : list byte) (r r' : reader), advances r r' -> loc_ok all r -> loc_ok all r'.
 Proof. exact loc_ok_advances. Qed.
 Print Assumptions C17_locations_follow_bytes.
+
+(* several inputs: &index runs on across inputs, &index-in-file restarts, &file-name names the input; also with --only-objects-and-arrays *)
+From Jawk Require Import Base F64 Json Reader JsonParser Ctx Printer Fn Expr Chain ExprParser Go GoProofs IoProofs FilesProofs IndexFilesProofs.
+
+(* C17_index for either setting of --only-objects-and-arrays: skipped scalars consume no index *)
+Theorem C17_index_any :
+  forall (fuel : nat) (oo : bool) (r : reader) (fname : option str) (idx infile : N)
+      (cs : list ctx) (e : N) (b : bool) (i : nat) (c : ctx),
+    read_ctxs fuel oo r fname idx infile = (cs, e, b) ->
+    nth_error cs i = Some c ->
+    exists ici : ictx,
+      ic c = Some ici /\
+      ic_index ici = (idx + N.of_nat i)%N /\
+      ic_file_index ici = (infile + N.of_nat i)%N /\ ic_file ici = fname.
+Proof. exact ctx_indices_any. Qed.
+Print Assumptions C17_index_any.
+
+(* the i-th context handed to the pipeline over ALL inputs carries &index = i *)
+Theorem C17_index_inputs :
+  forall (cf : cfg) (ins : list (option str * list ev)) (idx : N) (i : nat) (c : ctx),
+    nth_error (fst (ctxs_of_inputs cf ins idx)) i = Some c ->
+    exists ici : ictx, ic c = Some ici /\ ic_index ici = (idx + N.of_nat i)%N.
+Proof. exact ctxs_of_inputs_index. Qed.
+Print Assumptions C17_index_inputs.
+
+(* the j-th context that comes from an input carries that input's name and &index-in-file = j, wherever the input stands in the list *)
+Theorem C17_file_inputs :
+  forall (cf : cfg) (a : list (option str * list ev)) (fname : option str) (evs : list ev)
+      (rest : list (option str * list ev)) (idx : N) (j : nat) (c : ctx),
+    let before := fst (ctxs_of_inputs cf a idx) in
+    let mine :=
+      fst
+        (fst
+           (read_ctxs (input_fuel evs) (c_only_objs cf) (mk_reader evs) fname
+              (idx + N.of_nat (length before)) 0)) in
+    j < length mine ->
+    nth_error (fst (ctxs_of_inputs cf (a ++ (fname, evs) :: rest) idx)) (length before + j) = Some c ->
+    exists ici : ictx, ic c = Some ici /\ ic_file ici = fname /\ ic_file_index ici = N.of_nat j.
+Proof. exact ctxs_of_inputs_file. Qed.
+Print Assumptions C17_file_inputs.
